@@ -240,8 +240,10 @@ class Ctx:
         return self._driver
 
     # -- bookkeeping -------------------------------------------------------------------------
-    def count(self, name: str, key=None, n: int = 1):
-        if key is None:
+    _NOKEY = object()
+
+    def count(self, name: str, key=_NOKEY, n: int = 1):
+        if key is Ctx._NOKEY:
             self.hist[name] = self.hist.get(name, 0) + n
         else:
             d = self.hist.setdefault(name, {})
